@@ -86,10 +86,10 @@ theorem decode_expr (e : Expr) (n : Nat) (hn : needE e ≤ n) (hr : renderableE 
       exact decodeNodeStep_known _ _ _ _ (by simp [nodeFieldOrder]) (by simp) (decodeField_has _ _ a _ ih)
     | like e p =>
       simp only [needE] at hn
-      simp only [renderableE, Bool.and_eq_true, Bool.not_eq_true'] at hr
-      have ih := decode_expr e n (by omega) hr.1.1
+      simp only [renderableE, Bool.and_eq_true] at hr
+      have ih := decode_expr e n (by omega) hr.1
       simp only [exprToJ, decodeNodeF, embed]
-      exact decodeNodeStep_known _ _ _ _ (by simp [nodeFieldOrder]) (by simp) (decodeField_like _ _ p _ ih hr.1.2)
+      exact decodeNodeStep_known _ _ _ _ (by simp [nodeFieldOrder]) (by simp) (decodeField_like _ _ p _ ih)
     | is e ty =>
       simp only [needE] at hn
       simp only [renderableE] at hr
@@ -122,7 +122,7 @@ theorem decode_expr (e : Expr) (n : Nat) (hn : needE e ≤ n) (hr : renderableE 
       simp only [renderableE, Bool.and_eq_true] at hr
       have ih := decode_exprs args n (by omega) hr.2
       simp only [exprToJ, decodeNodeF, embed]
-      exact decodeNodeStep_ext _ fn _ _ hr.1 ih
+      exact decodeNodeStep_ext _ fn _ _ hr.1.1 ih
 theorem decode_exprs (es : List Expr) (n : Nat) (hn : needEs es ≤ n) (hr : renderableEs es = true) :
     mapMR (decodeNodeF n) (exprsToJ es) = .ok (embeds es) := by
   cases es with
